@@ -133,8 +133,13 @@ def check_state(ctx, R, fs, buf, g, t, history, sig, FatFileSystem, every_instan
 
 
 def jsonable_op(op):
-    return {k: (v if not isinstance(v, (bytes, bytearray)) else {'len': len(v), 'sha1': hashlib.sha1(v).hexdigest()[:10], 'head': bytes(v[:8]).hex()})
-            for k, v in op.items()}
+    def j(v):
+        if isinstance(v, (bytes, bytearray)):
+            return {'len': len(v), 'sha1': hashlib.sha1(v).hexdigest()[:10], 'head': bytes(v[:8]).hex()}
+        if isinstance(v, (list, tuple)):
+            return [j(x) for x in v]
+        return v
+    return {k: j(v) for k, v in op.items() if not k.startswith('_')}
 
 
 def run_history(ctx, R, rng, nops, populated, FatFileSystem, sig='fs.history', fat_types=('fat12', 'fat16', 'fat32')):
@@ -148,7 +153,7 @@ def run_history(ctx, R, rng, nops, populated, FatFileSystem, sig='fs.history', f
         if not check_state(ctx, R, fs, buf, g, t, ['(initial volume)'], sig, FatFileSystem):
             return
         for i in range(nops):
-            op = fatops.gen_op(rng, t, g.cs)
+            op = fatops.gen_op(rng, t, g.cs, sessions=True)
             # stay clear of ENOSPC here (C10 covers it): skip operations that would not fit with margin
             need = len(op.get('data', b'')) // g.cs + 4 + (op.get('pos', 0) + op.get('size', 0)) // g.cs
             if t.used_clusters(g.cs) + need > g.n_clusters - 6:
@@ -177,11 +182,92 @@ def run_history(ctx, R, rng, nops, populated, FatFileSystem, sig='fs.history', f
         ctx.sample(dict(fat_type=g.fat_type, cs=g.cs, history=history[:6]))
 
 
+def scripts(cs):
+    """deterministic corner-case histories (each needs something specific that random histories reach only rarely)"""
+    def blob(n, seed):
+        return bytes((seed * 37 + i * 11) % 251 + 1 for i in range(n))      # never a zero byte: stale data is visible in holes
+    W = lambda path, data, via='bytes': dict(op='write', path=path, data=data, via=via)
+    S = lambda path, mode, steps, buffering=-1: dict(op='session', path=path, mode=mode, buffering=buffering, steps=steps, pos=0,
+                                                     size=8 * cs)
+    yield 'same-name-empty-files-across-directories', [
+        dict(op='mkdir', path='/dir1'), dict(op='touch', path='/dir1/x'), dict(op='touch', path='/x'),
+        dict(op='rename', path='/dir1/x', target='/x'), dict(op='rmdir', path='/dir1'),
+        dict(op='mkdir', path='/dir1'), W('/dir1/same.bin', blob(cs + 1, 1)), W('/same.bin', blob(5, 2)),
+        dict(op='rename', path='/same.bin', target='/dir1/same.bin'), dict(op='rename', path='/dir1/same.bin', target='/dir1/SAME.BIN')]
+    yield 'hole-after-truncate-to-zero-on-one-handle', [
+        W('/a', blob(3 * cs + 7, 3)), S('/a', 'wb', [('seek', cs + 5), ('write', b'z')]),
+        W('/b', blob(2 * cs, 4)), S('/b', 'r+b', [('truncate', 0), ('seek', 2 * cs + 1), ('write', b'y'), ('seek', 0), ('read', 3 * cs)]),
+        W('/c', blob(cs - 1, 5)), S('/c', 'r+b', [('truncate', 0), ('truncate', 3 * cs), ('seek', 0), ('read', 4 * cs)], 0),
+        W('/d', blob(2 * cs + 3, 6)), S('/d', 'w+b', [('truncate', cs + 9), ('seek', 0), ('read', 2 * cs)], 0),
+        S('/e', 'xb', [('seek', 3 * cs), ('write', b'tail')]), S('/e', 'a+b', [('write', b'more'), ('seek', 0), ('read', 4 * cs)])]
+    yield 'many-names-sharing-six-alias-characters', (
+        [W(f'/Collide name {k:02d}.txt', blob(7 + k, k)) for k in range(1, 14)]
+        + [W('/Collide name 11.txt', blob(cs + 3, 77)), dict(op='unlink', path='/COLLIDE NAME 03.TXT'),
+           W('/Collide name 14.txt', blob(9, 14)), dict(op='rename', path='/Collide name 12.txt', target='/Collide name 03.txt')])
+    yield 'directory-growth-and-slot-reuse', (
+        [dict(op='mkdir', path='/sub')] + [W(f'/sub/a rather long file name number {k}.dat', blob(k, k)) for k in range(1, 26)]
+        + [dict(op='unlink', path=f'/sub/a rather long file name number {k}.dat') for k in range(2, 26, 2)]
+        + [W(f'/sub/second wave of long names {k}.bin', blob(3, k)) for k in range(1, 20)]
+        + [dict(op='mkdir', path='/sub/inner'), dict(op='rename', path='/sub/inner', target='/moved'),
+           dict(op='rename', path='/sub/second wave of long names 5.bin', target='/moved/five')])
+    yield 'growth-from-empty-and-far-seeks', [
+        dict(op='touch', path='/t'), dict(op='truncate', path='/t', size=2 * cs + 1, buffering=0),
+        dict(op='touch', path='/u'), dict(op='append', path='/u', data=blob(cs, 8)),
+        dict(op='touch', path='/v'), dict(op='seekwrite', path='/v', pos=4 * cs + 2, data=b'far', buffering=0),
+        dict(op='truncate', path='/v', size=cs, buffering=-1), dict(op='truncate', path='/v', size=0, buffering=0),
+        dict(op='append', path='/v', data=blob(2 * cs, 9)), dict(op='truncate', path='/t', size=1, buffering=0)]
+
+
+def run_scripts(ctx, R, FatFileSystem):
+    for ft in ('fat12', 'fat16', 'fat32'):
+        for cs_bps, spc in ((512, 1), (512, 2)):
+            g = fatimg.Geometry(ft, 160, spc=spc, bps=cs_bps, nfats=2, root_entries=128, fsinfo=True, type_string=True)
+            for label, ops in scripts(g.cs):
+                b = fatimg.Builder(g, ctx.rng)
+                # fill the free clusters with stale non-zero bytes: a hole must still read as zeros
+                img = bytearray(b.img)
+                data_off = len(img) - g.n_clusters * g.cs
+                for i in range(data_off + 2 * g.cs, len(img)):
+                    img[i] = 0xEE
+                buf = bytearray(b'\xA5' * GUARD) + img + bytearray(b'\x5A' * GUARD)
+                t = fatops.Tree()
+                history = []
+                sig = 'fs.script:' + label
+                with warnings.catch_warnings():
+                    warnings.simplefilter('ignore')
+                    fs = FatFileSystem(memoryview(buf)[GUARD:len(buf) - GUARD])
+                try:
+                    if not check_state(ctx, R, fs, buf, g, t, ['(initial volume)'], sig, FatFileSystem):
+                        break
+                    good = True
+                    for op in ops:
+                        jop = jsonable_op(op)
+                        history.append(jop)
+                        want = fatops.apply_model(t, op)
+                        got = fatops.apply_impl(fs, op)
+                        ctx.stat('script-op-' + op['op'])
+                        if want != got:
+                            ctx.violation(f'{sig}/outcome:{op["op"]}', f'{label} on {ft} (cluster size {g.cs}): {jop} should give {want} but gave {got}',
+                                          dict(geometry={k: v for k, v in vars(g).items()}, history=history))
+                            good = False
+                            break
+                        if not check_state(ctx, R, fs, buf, g, t, history, sig, FatFileSystem):
+                            good = False
+                            break
+                finally:
+                    try:
+                        fs.close()
+                    except Exception:
+                        pass
+                    ctx.case((ft, g.cs, label), True, 'script-' + label)
+
+
 def run(ctx, build):
     model_correspondence(ctx)
     from nobodd.fs import FatFileSystem
     R = ctx.runner('Fat')
     rng = ctx.rng
+    run_scripts(ctx, R, FatFileSystem)
     n = 60 if ctx.thorough else 16
     if ctx.widen:
         n *= 2
@@ -191,14 +277,7 @@ def run(ctx, build):
 
 def model_correspondence(ctx):
     """differential runs of the extracted Coq models of this property's cores against the real classes"""
-    import fat_table_corr
-    lib.corr_run(ctx, fat_table_corr)
-    SPEC['theorems'].update(getattr(fat_table_corr, 'SPEC_THEOREMS', {}))
-    SPEC['trusted_base'].extend(x for x in getattr(fat_table_corr, 'TRUSTED', []) if x not in SPEC['trusted_base'])
-    import fat_alloc_corr
-    lib.corr_run(ctx, fat_alloc_corr)
-    SPEC['theorems'].update(getattr(fat_alloc_corr, 'SPEC_THEOREMS', {}))
-    SPEC['trusted_base'].extend(x for x in getattr(fat_alloc_corr, 'TRUSTED', []) if x not in SPEC['trusted_base'])
+    lib.corr_modules(ctx, SPEC, ['fat_table_corr', 'fat_alloc_corr', 'fat_data_corr', 'fat_names_corr'])
 
 
 def replay(ctx, obj):
